@@ -804,7 +804,7 @@ def i_AND(i, fmap):
         op2 = op2.signextend(op1.size)
     x = fmap(op1) & op2
     fmap[zf] = x == 0
-    fmap[sf] = x < 0
+    fmap[sf] = x.bit(-1)
     fmap[cf] = bit0
     fmap[of] = bit0
     fmap[pf] = parity8(x[0:8])
@@ -817,7 +817,7 @@ def i_OR(i, fmap):
     fmap[eip] = fmap[eip] + i.length
     x = fmap(op1) | op2
     fmap[zf] = x == 0
-    fmap[sf] = x < 0
+    fmap[sf] = x.bit(-1)
     fmap[cf] = bit0
     fmap[of] = bit0
     fmap[pf] = parity8(x[0:8])
@@ -830,7 +830,7 @@ def i_XOR(i, fmap):
     op2 = fmap(i.operands[1])
     x = fmap(op1) ^ op2
     fmap[zf] = x == 0
-    fmap[sf] = x < 0
+    fmap[sf] = x.bit(-1)
     fmap[cf] = bit0
     fmap[of] = bit0
     fmap[pf] = parity8(x[0:8])
@@ -980,7 +980,7 @@ def i_SHL(i, fmap):
         fmap[cf] = top(1)
         fmap[of] = top(1)
     fmap[op1] = x
-    fmap[sf] = x < 0
+    fmap[sf] = x.bit(-1)
     fmap[zf] = x == 0
     fmap[pf] = parity8(x[0:8])
 
@@ -1096,7 +1096,7 @@ def i_SHRD(i, fmap):
         r = op1.size - n
         x = (fmap(op1) >> n) | (op2 << r)
     fmap[op1] = x
-    fmap[sf] = x < 0
+    fmap[sf] = x.bit(-1)
     fmap[zf] = x == 0
     fmap[pf] = parity8(x[0:8])
 
@@ -1113,7 +1113,7 @@ def i_SHLD(i, fmap):
         r = op1.size - n
         x = (fmap(op1) << n) | (op2 >> r)
     fmap[op1] = x
-    fmap[sf] = x < 0
+    fmap[sf] = x.bit(-1)
     fmap[zf] = x == 0
     fmap[pf] = parity8(x[0:8])
 
